@@ -128,15 +128,16 @@ int libwifi_quick_add_tag(struct libwifi_tagged_parameters *tags, int tag_number
                           const unsigned char *tag_data, size_t tag_length) {
     struct libwifi_tagged_parameter tagged_parameter = {0};
 
-    size_t ret = libwifi_create_tag(&tagged_parameter, tag_number, tag_data, tag_length);
+    // libwifi_create_tag reports failure as a negative errno value carried in a size_t
+    int ret = (int) libwifi_create_tag(&tagged_parameter, tag_number, tag_data, tag_length);
     if (ret <= 0) {
         return ret;
     }
 
-    libwifi_add_tag(tags, &tagged_parameter);
+    ret = libwifi_add_tag(tags, &tagged_parameter);
     libwifi_free_tag(&tagged_parameter);
 
-    return 0;
+    return ret;
 }
 
 int libwifi_check_tag(struct libwifi_tagged_parameters *tags, int tag_number) {
